@@ -138,11 +138,21 @@ Definition bridge_pct : bool := incl_ok (search S_pct) (search G_endsWithPercent
 (* what the code takes for a complete scheme is one *)
 Definition bridge_scheme : bool := incl_ok (search G_startsWithFullySpecifiedSchemePattern) (search S_scheme).
 
+(* a safe TrustedResourceURL prefix contains '/' or '#': it cannot be completed into a scheme *)
+Definition bridge_tru_delim : bool :=
+  incl_ok (search G_safeTrustedResourceURLPrefixPattern) (search (Cls [(35, 35); (47, 47)])).
+(* a dot-dot in the specification's reading is one for the code *)
+Definition S_dot : regex := Alt (Cls [(46, 46)]) (Cat (Cls [(37, 37)]) (Cat (Cls [(50, 50)]) (Cls [(69, 69); (101, 101)]))).
+Definition S_dotdot : regex := Cat S_dot S_dot.
+Definition bridge_dotdot14 : bool := incl_ok (search S_dotdot) (search G_urlDoubleDotSegmentPattern).
+
 Definition C14_bridges : list (bytes * (regex * regex)) :=
   [ (B "ws_rejected", (search S_ws, search G_containsWhitespaceOrControlPattern));
     (B "partial_charref_rejected", (search S_charref, search G_endsWithCharRefPrefixPattern));
     (B "partial_pct_rejected", (search S_pct, search G_endsWithPercentEncodingPrefixPattern));
-    (B "scheme_is_complete", (search G_startsWithFullySpecifiedSchemePattern, search S_scheme)) ].
+    (B "scheme_is_complete", (search G_startsWithFullySpecifiedSchemePattern, search S_scheme));
+    (B "tru_prefix_has_delimiter", (search G_safeTrustedResourceURLPrefixPattern, search (Cls [(35, 35); (47, 47)])));
+    (B "dotdot_rejected", (search S_dotdot, search G_urlDoubleDotSegmentPattern)) ].
 
 (* every entity name of the regenerated table starts with a letter and is alphanumeric up to an
    optional final ';' (so that charref_tail covers every unfinished named reference) *)
@@ -232,9 +242,13 @@ Definition opt_runes_eqb (a b : option (list N)) : bool :=
 (* a dot-dot in the data, read as the standard does (triplets for '.' count) *)
 Definition dot_at (s : bytes) : option bytes :=
   match s with
-  | 46 :: r => Some r
-  | 37 :: 50 :: e :: r => if (e =? 101) || (e =? 69) then Some r else None
-  | _ => None
+  | c :: r =>
+      if c =? 46 then Some r
+      else match r with
+           | x :: e :: r' => if (c =? 37) && (x =? 50) && ((e =? 101) || (e =? 69)) then Some r' else None
+           | _ => None
+           end
+  | [] => None
   end.
 Fixpoint spec_dotdot (v : bytes) : bool :=
   match v with
